@@ -310,7 +310,7 @@ def hdd_snapshots(rng, ctx, depth: int = 2, top_mode: str = "default", nstorages
             else:
                 states = [rng.choice("AU") for _ in range(n)]
                 sf, layer, meta = whds.build_hds(rng, version=rng.choice([1, 2]), m_sectors=ms, nclusters=n, states=states,
-                                                 placement=rng.choice(["shuffle", "coincidence"]), tag=tag)
+                                                 placement=rng.choice(["shuffle", "coincidence"]), tag=tag, in_use=rng.random() < 0.3)
                 typ = "Compressed"
             files[fn] = sf
             images.append({"guid": g, "type": typ, "file": fn})
@@ -336,7 +336,54 @@ def hdd_snapshots(rng, ctx, depth: int = 2, top_mode: str = "default", nstorages
 
     parts = [Model(sizes[si], parts_layers[si][depth - upto :]) for si in range(nstorages)]
     model = ConcatModel(parts) if nstorages > 1 else parts[0]
-    return Opened(st, model, info={"depth": depth, "opened_depth": upto, "top_mode": top_mode, "storages": nstorages, "base_plain": base_plain})
+    op = Opened(st, model, info={"depth": depth, "opened_depth": upto, "top_mode": top_mode, "storages": nstorages, "base_plain": base_plain})
+    # for re-opening the same HDD object: every snapshot level with its own model
+    op.hdd = hdd
+    op.levels = []
+    for lvl in range(1, depth + 1):
+        ps = [Model(sizes[si], parts_layers[si][depth - lvl :]) for si in range(nstorages)]
+        op.levels.append((guids[lvl - 1], ConcatModel(ps) if nstorages > 1 else ps[0]))
+    return op
+
+
+def hdd_abs(rng, ctx) -> Opened:
+    """Image <File> entries with absolute paths that no longer exist (a moved/copied bundle): the reader's relocation
+    candidates must find the right file (same .hdd directory, a sibling .hdd directory, the original .pvm tree)."""
+    from dissect.hypervisor.disk.hdd import HDD
+
+    base = Path(ctx.tmpdir())
+    variant = rng.choice(["same-hdd", "same-hdd-renamed", "sibling-hdd", "pvm"])
+    g = whds.DEFAULT_TOP
+    sf, layer, meta = whds.build_hds(rng, version=rng.choice([1, 2]), m_sectors=8, nclusters=rng.randrange(2, 20), tag=rng.getrandbits(48), placement="shuffle")
+    nsec = meta["size"] // SECTOR
+    decoy, _, _ = whds.build_hds(rng, version=2, m_sectors=8, nclusters=nsec // 8, tag=rng.getrandbits(48), placement="shuffle")
+    if variant == "same-hdd":
+        hd = base / "vm.pvm" / "disk.hdd"
+        target = hd / "img.hds"
+        ref = "/other/place/x.pvm/disk.hdd/img.hds"
+    elif variant == "same-hdd-renamed":
+        # the bundle was copied under a new name next to the original, which still holds another image of that name
+        hd = base / "vm.pvm" / "disk-backup.hdd"
+        target = hd / "img.hds"
+        ref = "/other/place/x.pvm/disk.hdd/img.hds"
+        (base / "vm.pvm" / "disk.hdd").mkdir(parents=True)
+        decoy.write_to(base / "vm.pvm" / "disk.hdd" / "img.hds")
+    elif variant == "sibling-hdd":
+        hd = base / "vm.pvm" / "disk.hdd"
+        target = base / "vm.pvm" / "orig.hdd" / "img.hds"
+        ref = "/elsewhere/a.pvm/orig.hdd/img.hds"
+    else:
+        hd = base / "clones" / "vm.pvm" / "disk.hdd"
+        target = base / "clones" / "orig.pvm" / "orig.hdd" / "img.hds"
+        ref = "/gone/orig.pvm/orig.hdd/img.hds"
+    hd.mkdir(parents=True)
+    target.parent.mkdir(parents=True, exist_ok=True)
+    sf.write_to(target)
+    whds.write_hdd_dir(str(hd), [{"start": 0, "end": nsec, "images": [{"guid": g, "type": "Compressed", "file": ref}]}], [(g, whds.NULL_GUID)])
+    hdd = HDD(hd)
+    op = Opened(hdd.open(), Model(meta["size"], [layer]), info={"variant": variant, "stored_file": ref})
+    op.hdd = hdd
+    return op
 
 
 def wvmdk_flat(rng, nsec, tag):
